@@ -28,7 +28,9 @@ pub fn is_option_variation(e: &Edit) -> bool {
 impl DJob {
     pub fn to_json(&self) -> Value {
         json!({"t":"disk","file":self.file,"edit":self.edit,"level":self.level,"e2e":self.e2e,"closure":self.closure,
-            "no_lost_links": is_option_variation(&self.edit)})
+            "no_lost_links": is_option_variation(&self.edit),
+            // level 0 = the conversion API without the catalogue merge (ctehexml::parse / Data::new alone)
+            "no_catalog": self.level == 0})
     }
 }
 
